@@ -144,7 +144,7 @@ def run_codec(ctx, prop, tier, seed, binp, workdir):
     violations = []
     for sig, rid in sorted(bysig.items()):
         r = recs[rid]
-        rp = write_replay(ctx, prop, seed, dict(special="codec", signature=sig, kind=r["kind"], **{"in": r["in"]}, first_observed=r["obs"]))
+        rp = write_replay(ctx, prop, seed, dict(special="codec", signature=sig, kind=r["kind"], prev=r.get("prev"), **{"in": r["in"]}, first_observed=r["obs"]))
         if not replay(json.load(open(rp)), binp, workdir, ctx):
             raise ctx["Machinery"]("C16 counterexample %s did not reproduce (%s)" % (sig, rp))
         violations.append(dict(signature=sig, replay=rp))
@@ -157,7 +157,10 @@ def run_codec(ctx, prop, tier, seed, binp, workdir):
 
 def replay_codec(rp, binp, workdir, ctx):
     inp = os.path.join(workdir, "cr.ndjson")
-    open(inp, "w").write(json.dumps({"id": 1, "kind": rp["kind"], "in": rp["in"]}) + "\n")
+    rec = {"id": 1, "kind": rp["kind"], "in": rp["in"]}
+    if rp.get("prev") is not None:
+        rec["prev"] = rp["prev"]
+    open(inp, "w").write(json.dumps(rec) + "\n")
     obs = os.path.join(workdir, "cro.ndjson")
     harness(ctx, binp, ["codecreplay", "-in", inp, "-out", obs], rp["seed"])
     vs = aux_validate(ctx, "Codec", "Codec.cfg", obs, workdir)
